@@ -4,10 +4,13 @@ use crate::engine::DynSub;
 
 pub mod c01;
 pub mod c02;
+pub mod c04;
+pub mod c05;
 pub mod c08;
 pub mod c09;
 pub mod c10;
 pub mod c18;
+pub mod c19;
 
 pub struct PropDef {
     pub id: &'static str,
@@ -41,8 +44,11 @@ macro_rules! registry {
 registry! {
     "C01" => c01,
     "C02" => c02,
+    "C04" => c04,
+    "C05" => c05,
     "C08" => c08,
     "C09" => c09,
     "C10" => c10,
     "C18" => c18,
+    "C19" => c19,
 }
